@@ -58,6 +58,7 @@ PAIRS = ("template", "js", "css")
 EXT = {"js": "js", "all": "css", "print": "css", "css": "css", "template": "html"}
 REL_OFFSET = 10
 UNKNOWN = 99
+OBJ = 100            # `object` in an MRO
 
 # finding keys: named deviation (shape of the case) : outcome the deviation predicts
 KEYS = {
@@ -134,9 +135,18 @@ def _elem(name: str, rnd: random.Random):
     return lambda name=name: name
 
 
-def _media_class(rec, rel, classes, rnd: random.Random):
-    """The nested Media of a class record, in a randomly chosen accepted surface form."""
+def _media_class(rec, rel, classes, rnd: random.Random, canonical: bool = False):
+    """The nested Media of a class record, in a randomly chosen accepted surface form.
+    canonical: the class is not a Component, nobody normalises its Media (js list, css dict of lists)."""
     d: Dict[str, Any] = {}
+    if canonical:
+        d["js"] = [World.fname(f, "js", rel) for f in rec["lists"]["js"]]
+        d["css"] = {m: [World.fname(f, m, rel) for f in rec["lists"][m]] for m in ("all", "print") if rec["lists"][m]}
+        if rec["ext"] == "false":
+            d["extend"] = False
+        elif rec["ext"] == "list":
+            d["extend"] = [classes[j] for j in rec["extl"]]
+        return type("Media", (), d)
     js = [_elem(World.fname(f, "js", rel), rnd) for f in rec["lists"]["js"]]
     if js:
         if len(js) == 1 and rnd.random() < 0.4:
@@ -164,6 +174,8 @@ def _media_class(rec, rel, classes, rnd: random.Random):
         d["extend"] = False
     elif rec["ext"] == "list":
         d["extend"] = [classes[j] for j in rec["extl"]]
+        if rnd.random() < 0.2:
+            d["extend"] = tuple(d["extend"])
     elif rnd.random() < 0.3:
         d["extend"] = True
     return type("Media", (), d)
@@ -192,14 +204,19 @@ def run_real(cls_recs, rel, accesses, forms: int, keep_memo: bool = False) -> Li
             warnings.simplefilter("ignore")
             for i, rec in enumerate(cls_recs, start=1):
                 attrs: Dict[str, Any] = {"__module__": modname}
-                bases = tuple(classes[b] for b in rec["bases"]) or (Component,)
+                plain = rec.get("plain", False)
+                bases = tuple(classes[b] for b in rec["bases"])
+                if plain:
+                    bases = bases or (object,)
+                elif not any(not cls_recs[b - 1].get("plain", False) for b in rec["bases"]):
+                    bases = bases + (Component,)
                 try:
                     if rec["media"] == "null":
                         attrs["Media"] = None
                     elif rec["media"] == "def":
-                        attrs["Media"] = _media_class(rec, rel, classes, rnd)
+                        attrs["Media"] = _media_class(rec, rel, classes, rnd, canonical=plain)
                     for p in PAIRS:
-                        k = rec["attr"][p]
+                        k = "none" if plain else rec["attr"][p]
                         if k in ("inline", "both"):
                             attrs[p] = World.content(i, p, "inline")
                         if k in ("file", "both"):
@@ -216,12 +233,13 @@ def run_real(cls_recs, rel, accesses, forms: int, keep_memo: bool = False) -> Li
                     out = "other:" + type(e).__name__
                 # the MRO Python computed, as class indices (cross-check of the C3 transcription)
                 index = {v: k for k, v in classes.items()}
+                index[object] = OBJ
                 mro = [index[k] for k in classes[i].__mro__ if k in index] if out == "ok" else []
                 events.append({"op": "create", "c": i, "out": out, "mro": mro})
                 if out != "ok":
                     break
             for c, a, via in accesses:
-                if c not in classes:
+                if c not in classes or (c and cls_recs[c - 1].get("plain", False)):
                     continue
                 ev = {"op": "access", "c": c, "a": a, "via": via, "exc": False, "js": [], "all": [],
                       "print": [], "other": 0, "src": 0, "kind": "none", "file": 0}
@@ -266,7 +284,7 @@ def run_real(cls_recs, rel, accesses, forms: int, keep_memo: bool = False) -> Li
 
 # ---------------------------------------------------------------- comparing with the export
 ROOT_EXP = {"create": ["ok"], "files": {t: [] for t in TYPES}, "cons": {t: True for t in TYPES},
-            "prec": {t: [] for t in TYPES}, "mro": [0],
+            "prec": {t: [] for t in TYPES}, "mro": [0, OBJ],
             "attr": {p: {"src": 0, "kind": "none"} for p in PAIRS}}
 
 
@@ -303,12 +321,12 @@ def failing(ev, exp) -> List[str]:
 # ---------------------------------------------------------------- TLC plumbing
 def _cfg(path: Path, spec: str, *, maxn=3, maxbases=2, maxacc=0, lists="ListsQuick", attrs="AttrsNone",
          kinds="KindsBasic", exts="ExtsAll", rel="NoRel", impld="NoDevs", accattrs="AccAll", accvias="ViasBoth",
-         trim=False, extra="") -> None:
+         trim=False, plains=False, extra="") -> None:
     path.write_text(
         f"SPECIFICATION {spec}\nCONSTANTS\n  MaxN = {maxn}\n  MaxBases = {maxbases}\n  MaxAcc = {maxacc}\n"
         f"  Lists <- {lists}\n  Attrs <- {attrs}\n  Kinds <- {kinds}\n  Exts <- {exts}\n"
         f"  RelFiles <- {rel}\n  ImplD <- {impld}\n  AccAttrs <- {accattrs}\n  AccVias <- {accvias}\n"
-        f"  Trim = {'TRUE' if trim else 'FALSE'}\n{extra}")
+        f"  Trim = {'TRUE' if trim else 'FALSE'}\n  Plains = {'TRUE' if plains else 'FALSE'}\n{extra}")
 
 
 TLC_PAR = 4          # concurrent single-worker TLC processes for trace batches
@@ -408,21 +426,25 @@ FAMILIES = {
               "thorough": (dict(maxn=4, lists="ListsNone", kinds="KindsNone", attrs="AttrsFew"), None, 8)},
     "media4": {"quick": (dict(maxn=4, lists="ListsPos", kinds="KindsBasic", exts="ExtsTF"), 1500, 2),
                "thorough": (dict(maxn=4, lists="ListsPos", kinds="KindsBasic", exts="ExtsTF"), None, 8)},
+    # plain (non-Component) mixins with a nested Media as bases and in extend lists
+    "mixin": {"quick": (dict(maxn=3, lists="ListsPos", kinds="KindsBasic", plains=True, trim=True), 3000, 2),
+              "thorough": (dict(maxn=3, lists="ListsPos", kinds="KindsBasic", plains=True), None, 6)},
     # component-relative files, media read before / after template, js, css (every second run
     # contradicts the specification here and has to be explained by TLC, hence the caps)
     "rel": {"quick": (dict(maxn=2, lists="ListsRel", kinds="KindsBasic", attrs="AttrsFew", rel="Rel1"), 1000, 2),
             "thorough": (dict(maxn=3, lists="ListsRel", kinds="KindsBasic", attrs="AttrsFew", rel="Rel1",
                               exts="ExtsTF"), 2500, 2)},
 }
-ORDER = ("attr", "rel", "attr4", "media4", "media")     # cheap exports first
+ORDER = ("attr", "rel", "attr4", "media4", "mixin", "media")     # cheap exports first
 _export_cache: Dict[Any, Any] = {}
 
 
-def plans(fam: str, m: int, idx: int, nperms: int) -> List[List[List[Any]]]:
-    """Access histories driven on one exported hierarchy with m usable classes: `nperms`
-    permutations of the classes as first-access order (all of them if there are not more; else a
-    selection rotating with the index of the hierarchy, so that every order occurs on every shape)."""
-    perms = list(itertools.permutations(range(1, m + 1)))
+def plans(fam: str, usable: List[int], idx: int, nperms: int) -> List[List[List[Any]]]:
+    """Access histories driven on one exported hierarchy whose `usable` classes were created and are
+    Components: `nperms` permutations of them as first-access order (all of them if there are not
+    more; else a selection rotating with the index of the hierarchy, so that every order occurs on
+    every shape)."""
+    perms = list(itertools.permutations(usable or [0]))
     L = len(perms)
     if L > nperms:
         if nperms == 2:
@@ -436,7 +458,7 @@ def plans(fam: str, m: int, idx: int, nperms: int) -> List[List[List[Any]]]:
         v = ["cls", "inst"] if (idx + n) % 2 == 0 else ["inst", "cls"]
         if fam.startswith("media"):
             acc = [[c, "media", v[i % 2]] for i, c in enumerate(perm)]
-            acc += [[c, "media", v[(c + 1) % 2]] for c in range(1, m + 1)]
+            acc += [[c, "media", v[(c + 1) % 2]] for c in sorted(perm)]
             out.append(acc)
         elif fam.startswith("attr"):
             ps = PAIRS[n % 3:] + PAIRS[:n % 3]
@@ -461,7 +483,8 @@ def _replay_chunk(args):
     for idx, cls, rel, exps, m in items:
         nontrivial = m >= 2 and any(c["media"] == "def" or any(v != "none" for v in c["attr"].values())
                                     for c in cls)
-        for n, acc in enumerate(plans(fam, max(m, 1), idx, nperms)):
+        usable = [c for c in range(1, m + 1) if not cls[c - 1].get("plain", False)]
+        for n, acc in enumerate(plans(fam, usable, idx, nperms)):
             forms = seed * 1000003 + idx * 13 + n
             events = run_real(cls, rel, acc, forms)
             bad = []
@@ -597,6 +620,10 @@ def gen_hierarchy(rnd: random.Random) -> Tuple[List[Dict[str, Any]], List[int]]:
     for i in range(1, n + 1):
         nb = min(i - 1, rnd.choice([0, 1, 1, 1, 2, 2, 3]))
         bases = rnd.sample(range(1, i), nb)
+        # a mixin that is not a Component: only plain bases, no assets, no relative files
+        plain = rnd.random() < 0.15 and not rel
+        if plain:
+            bases = [b for b in bases if cls[b - 1]["plain"]]
         x = rnd.random()
         media = "none" if x < 0.25 else ("null" if x < 0.32 else "def")
         lists = {t: [] for t in TYPES}
@@ -610,12 +637,15 @@ def gen_hierarchy(rnd: random.Random) -> Tuple[List[Dict[str, Any]], List[int]]:
                 ext = "false"
             elif y < 0.5 and i > 1:
                 ext = "list"
-                extl = rnd.sample(range(1, i), min(i - 1, rnd.choice([1, 1, 2, 3])))
+                extl = rnd.sample(range(1, i), min(i - 1, rnd.choice([0, 1, 1, 2, 3])))
+                if extl and rnd.random() < 0.1:
+                    extl.append(extl[0])          # a class listed twice
         attr = {}
         for p in PAIRS:
             z = rnd.random()
-            attr[p] = "none" if z < 0.55 else ("inline" if z < 0.76 else ("file" if z < 0.97 else "both"))
-        cls.append({"bases": bases, "media": media, "lists": lists, "ext": ext, "extl": extl, "attr": attr})
+            attr[p] = "none" if plain or z < 0.55 else ("inline" if z < 0.76 else ("file" if z < 0.97 else "both"))
+        cls.append({"plain": plain, "bases": bases, "media": media, "lists": lists, "ext": ext, "extl": extl,
+                    "attr": attr})
     return cls, rel
 
 
@@ -632,7 +662,8 @@ def random_traces(chk: Check, ntraces: int) -> List[Dict[str, Any]]:
         cls = cls[:len(created)]
         acc = []
         for _ in range(rnd.randint(4, 14)):
-            c = rnd.choice([0] + list(range(1, m + 1)) * 3) if m else 0
+            comps = [k for k in range(1, m + 1) if not cls[k - 1]["plain"]]
+            c = rnd.choice([0] + comps * 3)
             a = "media" if rnd.random() < 0.5 else rnd.choice(PAIRS)
             acc.append([c, a, rnd.choice(["cls", "inst"])])
         events = run_real(cls, rel, acc, forms, keep_memo=n < 2000)
@@ -815,6 +846,10 @@ def selftest(tier: str) -> int:
         ("base-files-replace-own-files",
          media_probe(("media = media_cls(js=merged_media._js, css=merged_media._css)",
                       "media = media_cls(js=base_media._js or merged_media._js, css=merged_media._css)"))),
+        ("plain-mixin-bases-skipped",
+         media_probe(("unresolved_bases = [base for base in bases if base not in media_cache]",
+                      "unresolved_bases = [base for base in bases if base not in media_cache "
+                      "and hasattr(base, '_component_media')]"))),
         ("own-js-list-reversed",
          media_probe(('media_js = getattr(media_input, "js", [])', 'media_js = list(reversed(getattr(media_input, "js", [])))'))),
         ("pair-rule-dropped (nearest non-null value of the attribute itself)",
